@@ -404,6 +404,7 @@ class QuotientFilter:
             return
 
         next_idx = (idx + 1) & self.__mod_size
+        removed_idx = idx
 
         # track if this is the only element in this run...
         remove_orig_idx = False
@@ -436,7 +437,12 @@ class QuotientFilter:
             idx = next_idx
             next_idx = (idx + 1) & self.__mod_size
 
-        while not self._is_cluster_start(next_idx) and not self._is_empty_element(next_idx):
+        # next_idx comes back to removed_idx only when a single cluster fills the whole table
+        while (
+            not self._is_cluster_start(next_idx)
+            and not self._is_empty_element(next_idx)
+            and next_idx != removed_idx
+        ):
             self._filter[idx] = self._filter[next_idx]
             self._is_continuation[idx] = self._is_continuation[next_idx]
             self._is_shifted[idx] = self._is_shifted[next_idx]
@@ -456,7 +462,9 @@ class QuotientFilter:
         # now figure out if things are in the correct place....
         cur_quot = -1
         queue: List[int] = []
-        while min_idx != next_idx:
+        whole_table = min_idx == next_idx  # the cluster wrapped all the way around
+        while whole_table or min_idx != next_idx:
+            whole_table = False
             if self._is_occupied[min_idx] == 1:
                 queue.append(min_idx)
             if self._is_run_start(min_idx) == 1:
